@@ -1,5 +1,6 @@
 import ast
 import collections
+import copy
 import itertools
 import re
 from typing import Collection, Iterable, Sequence, Tuple
@@ -506,6 +507,8 @@ def create_abstractions(source: str) -> str:
             ):
                 col_offset = nodes[0].col_offset
                 lineno = nodes[0].lineno
+                # function_body holds statements of the tree cached by core.parse: relocate copies.
+                function_body = [copy.copy(child) for child in function_body]
                 for i, child in enumerate(function_body):
                     child.lineno = lineno + i
                     child.col_offset = col_offset
